@@ -366,10 +366,11 @@ def lookahead(rep, tier, seed):
             for tr in ("z-score", "yeo-johnson", None):
                 for cut_i in (8, 11, 14):
                     for tend_off in (0, 2):
-                        cases.append((w, s, tr, cut_i, tend_off))
+                        for xh in (0, 16):
+                            cases.append((w, s, tr, cut_i, tend_off, xh))
     if tier == "quick":
         cases = cases[::3]
-    for (w, s, tr, cut_i, tend_off) in cases:
+    for (w, s, tr, cut_i, tend_off, xh) in cases:
         p = {"dx": set(bd) - {bd[4]}, "dy": set(bd[2:]) - {bd[9]}, "w": w, "s": s, "start": 0, "end": 0}
         cut = bd[cut_i]
         tend = D(bd[cut_i - tend_off])
@@ -378,6 +379,10 @@ def lookahead(rep, tier, seed):
         late = [float("nan") if d <= bd[cut_i + 2] else 0.5 + (d % 7) / 10.0 for d in sorted(p["dx"])]
         if tr != "yeo-johnson":      # a power transformer cannot be fitted on a column that is empty up to transformer_end
             X["f2"] = late
+        if xh:
+            # features published in the afternoon (16:00) of their date, prices stamped at midnight: the row of a date is not
+            # known at that date's timestep
+            X.index = X.index + timedelta(hours=xh)
         X2, Y2 = X.copy(), Y.copy()
         after = X2.index > D(cut)
         if "f2" in X2.columns:
@@ -390,7 +395,8 @@ def lookahead(rep, tier, seed):
         oa, ea = impl.classify(lambda: build(p, tr, X, Y, rate, transformer_end=tend))
         ob, eb = impl.classify(lambda: build(p, tr, X2, Y2, rate, transformer_end=tend))
         n += 1
-        case = {"kind": "tabular-lookahead", "window": w, "stride": s, "transformer": tr, "cut_day": cut, "transformer_end": str(tend.date())}
+        case = {"kind": "tabular-lookahead", "window": w, "stride": s, "transformer": tr, "cut_day": cut, "transformer_end": str(tend.date()),
+                "feature_rows_stamped_at_hour": xh}
         if oa != "ok" or ob != "ok":
             rep.violation("tabular", "tabular/construct", "TradingEnvXY could not be built: %r %r" % (ea, eb), case)
             continue
